@@ -142,6 +142,10 @@ func c05Engine() *Engine {
 		c := schedCfg{writers: 1 + r.Intn(3), readers: 0, opsPerClient: 3 + r.Intn(6),
 			think:    []time.Duration{400 * time.Millisecond, 3 * time.Second, 3 * time.Minute, 6 * time.Minute}[r.Intn(4)],
 			shutdown: r.Pct(30), tail: []time.Duration{time.Second, 6 * time.Minute, 16 * time.Minute}[r.Intn(3)]}
+		// some requests are timed to land on the 5-minute checkpoint/rotation tick
+		// itself, so that they are in flight while the checkpoint and the
+		// truncation run
+		c.alignPct, c.alignTo = []int{0, 25, 50}[r.Intn(3)], 5*time.Minute
 		if tier == "thorough" {
 			c.opsPerClient += 8
 		}
